@@ -476,6 +476,7 @@ pub fn check_case(prop: &str, g: &GCtx, e: &RuleEntry, input: &str) -> Result<Ca
         return Ok(out);
     }
     let st = &o.stats;
+    crate::set_fuel_from_oracle(st.rule_calls);
     match prop {
         "C01" | "C08" => {
             let rec = observe(e.parse, input, MODE_REC, salt);
